@@ -21,8 +21,9 @@ EXPLANATION = (
     "on the radix letters, on the digit function and on the first characters that force an integer (character predicates are evaluated as "
     "extracted decision structures over a finite character domain). R8 (TAB): the stdin reader's byte classifier, evaluated as a decision "
     "structure on every byte that occurs in valid UTF-8, equals the UTF-8 lead-byte table, so the two transports deliver the same characters."
-    " R5 also: the stdin reader answers None only with nothing collected and only behind the end-of-input edge; token separators are read without assertion code and character-class predicates are reported. R9: a label's offset is parsed with 'sign required' and parse_integer honours it. R10: the argument reader's byte cursor is advanced by byte quantities only. R11: the integer parser uses no wrapping/saturating/overflowing arithmetic. R12: TryParse implementations strip their sigil once (no trim_*_matches). R13: the integer parser and its pre-classifier single out no characters beyond sign, #, radix letters and 0."
+    " R5 also: the stdin reader answers None only with nothing collected and only behind the end-of-input edge; token separators are read without assertion code and character-class predicates are reported. R9: a label's offset is parsed with 'sign required' and parse_integer honours it. R10: the argument reader's byte cursor is advanced by byte quantities only. R11: the integer parser uses no wrapping/saturating/overflowing arithmetic. R12: TryParse implementations strip their sigil once (no trim_*_matches). R13: the integer parser and its pre-classifier single out no characters beyond sign, #, radix letters and 0. R5 also: Stream::read and CommandReader::read hand the answer of the transport on unchanged (no Option-shaping call, no None of their own except behind the None of the transport)."
 )
+
 NOT_DECIDED = "the value denoted by every spelling of an integer or label (a grammar-level, value-quantified matter); invalid UTF-8 on stdin (outside the quantifier: strings)"
 
 TRY_FROM = "lace::debugger::command::Command::<'a>::try_from"
@@ -403,6 +404,36 @@ def run(ctx):
         ctx.violation("stdin-eof-drops-text", sp_file_line(sr.stmts(bad_none[0])[0].get("sp")) if bad_none and sr.stmts(bad_none[0]) else sr.file_line(),
                       "the stdin reader can answer `None` (end of commands) although it has collected text: a last command that is not followed by a newline or "
                       "';' is dropped on standard input but executed through --command")
+    # ... and the wrappers between the transports and the parser (Stream::read, CommandReader::read) hand the transport's answer on as it is:
+    # `None` means end of input there, so an answer that is filtered, or replaced by None for some commands (an empty one, say), ends the session
+    wrappers = [n for n in prog.fns if prog.fns[n].bkind == "fn" and re.search(r"(Stream|CommandReader) as debugger::command::reader::Read>::read$", n)]
+    ctx.need(len(wrappers) == 2, "the two reader wrappers (Stream::read, CommandReader::read): %s" % [short(w) for w in wrappers])
+    for w in sorted(wrappers):
+        wf = prog.fns[w]
+        ctx.instance(1)
+        shaping = [short(c).rsplit("::", 1)[-1] for b, t, c in wf.calls() if c and re.search(r"Option::<T>::(filter|take_if|and_then|xor|zip|filter_map|take|replace|map_or|is_some_and)$", c)]
+        own_none = [b for b, i_, s_ in wf.assigns() if s_["p"]["l"] == 0 and not s_["p"].get("pr") and s_["r"]["k"] == "agg"
+                    and str(s_["r"].get("adt", "")).endswith("option::Option") and s_["r"].get("variant") == "None"]
+        # a None of its own is fine behind the None edge of a transport's own answer (`match inner.read() { Some(c) => Some(c), None => None }`)
+        def behind_transport_none(bb):
+            for b2, t2, c2 in wf.calls():
+                if not (c2 and c2.endswith("Read>::read") or c2 in (ARG_READ, STDIN_READ)) or t2.get("t") is None or t2["dest"].get("pr"):
+                    continue
+                for sb in sorted(wf.live_blocks()):
+                    sd_ = kit.switch_on_discr_of_local(wf, sb)
+                    tt_ = wf.term(sb)
+                    if sd_ and tt_["k"] == "switch" and sd_[0].get("l") == t2["dest"]["l"] and not sd_[0].get("pr"):
+                        nt_ = {v: x for v, x in tt_["targets"]}.get(0, tt_["otherwise"] if 1 in {v for v, x in tt_["targets"]} else None)
+                        if nt_ is not None and (nt_ == bb or wf.dominates(nt_, bb)):
+                            return True
+            return False
+        own_none = [b for b in own_none if not behind_transport_none(b)]
+        okw = not shaping and not own_none
+        ctx.oblig(okw, {"wrapper": short(w), "answers": "handed on unchanged"}, "no Option-shaping call, no None of its own")
+        if not okw:
+            ctx.violation("reader-wrapper-drops|%s" % short(w), wf.file_line(),
+                          "`%s` does not hand the transport's answer on as it is (%s): a command it turns into `None` reads as end of input and ends the session on "
+                          "that transport only" % (short(w), ("calls Option::%s on it" % ", ".join(shaping)) if shaping else "stores a None of its own"))
     # combined reader: argument first
     cr = prog.fns[CR_READ]
     ab = [b for b, t, c in cr.calls() if c == ARG_READ]
